@@ -24,7 +24,8 @@ def _common_prefix(keys):
 
 def build_edge(items, m, leaf, fork_extra=None):
     """items: {key bit string of length m: value}.  leaf(value) -> (bits, refs, extra) ;
-    fork_extra(left_extra, right_extra) -> (extra_value, extra_bits) for HashmapAug.
+    fork_extra(left_extra, right_extra) -> (extra_value, extra_bits[, extra_refs]) for HashmapAug (the extra's references
+    follow the two children).
     Returns (RCell, extra)."""
     keys = list(items)
     label = _common_prefix(keys) if len(keys) > 1 else keys[0]
@@ -38,10 +39,13 @@ def build_edge(items, m, leaf, fork_extra=None):
     lc, le = build_edge(l, rest - 1, leaf, fork_extra)
     rc, re_ = build_edge(r, rest - 1, leaf, fork_extra)
     extra = None
+    erefs = ()
     if fork_extra is not None:
-        extra, ebits = fork_extra(le, re_)
+        res = fork_extra(le, re_)
+        extra, ebits = res[0], res[1]
+        erefs = tuple(res[2]) if len(res) > 2 else ()
         bits += ebits
-    return RCell(bits, (lc, rc)), extra
+    return RCell(bits, (lc, rc) + erefs), extra
 
 
 def build_hashmap(mapping, n, value_bits):
